@@ -322,3 +322,65 @@ func init() {
 	Registry["C16"] = func(c *Ctx) (int, error) { return runParseProp(c, "C16") }
 	Registry["C17"] = func(c *Ctx) (int, error) { return runParseProp(c, "C17") }
 }
+
+func runC13(c *Ctx) (int, error) {
+	cases, gr, err := genParseCases(c, "Gen_Inject", "BaseWellFormed InjectionsIllFormed GraphVerdicts Export", "")
+	if err != nil {
+		return 2, err
+	}
+	var events []map[string]interface{}
+	nontriv := 0
+	for i, cs := range cases {
+		var x struct {
+			Class, Site, Expect string
+		}
+		_ = json.Unmarshal(cs.Extra, &x)
+		if x.Expect == "reject" {
+			nontriv++
+		}
+		for li, lay := range ast.Layouts {
+			if li != 0 && !(cs.Part == "inject" && li == 4) {
+				continue // graphs in the standard layout; injections also in the tight one
+			}
+			text := ast.Render(cs.Tokens, lay)
+			var f bebop.File
+			crash := ""
+			rres, rmsg := guarded(20*time.Second, func() error {
+				var err error
+				f, _, err = bebop.ReadFile(strings.NewReader(text))
+				return err
+			})
+			gres, gmsg := "", ""
+			if rres == "nil" {
+				gres, gmsg = guarded(20*time.Second, func() error {
+					return f.Generate(&bytes.Buffer{}, bebop.GenerateSettings{PackageName: "x"})
+				})
+			}
+			if rres == "panic" || rres == "timeout" {
+				crash = "ReadFile: " + rres
+			}
+			if gres == "panic" || gres == "timeout" {
+				crash = "Generate: " + gres
+			}
+			events = append(events, map[string]interface{}{"ev": "inject", "cid": i + 1, "layout": lay.Name, "accepted": rres == "nil" && gres == "nil",
+				"rres": rres, "gres": gres, "msg": rmsg + gmsg, "crash": crash, "text": text})
+		}
+	}
+	devs := c.OpenDevs("C13")
+	vs, total, st, tr, err := judgeParse(c, "Trace_Parse", "C13", devs, cases, events)
+	if err != nil {
+		return 2, infra("%v", err)
+	}
+	reportParseVerdicts(c, vs, cases, events, "inject")
+	samples := []interface{}{}
+	for _, i := range []int{0, 3, len(events) - 7} {
+		samples = append(samples, map[string]interface{}{"text": events[i]["text"], "accepted": events[i]["accepted"], "expectation": json.RawMessage(cases[events[i]["cid"].(int)-1].Extra)})
+	}
+	cov := Coverage{"states": gr.Distinct + st, "transitions": gr.Generated + tr, "traces_validated_against_impl": total["ok"] + total["known"],
+		"events_total": len(events), "evaluations": len(events), "distinct_nontrivial": nontriv,
+		"rule":    "schemas = a valid base schema (enum, typed enum, struct, message, union with struct and message branches, containers, opcodes, consts) x ONE injected error per class of the property at every applicable site (51 injections: undefined types at 9 sites incl. union branches and nested containers; duplicate definition/const/field/option names; duplicate enum values; duplicate message/union indices; index zero; duplicate opcodes; enum values out of range; unassignable const literals; primitive names), each checked by TLC to violate exactly that rule of the reference validator; recursion: EVERY directed graph on 1-3 structs (2+16+512) x edge kind {direct, via message, via union, via array, via map}; non-trivial = cases the reference validator rejects",
+		"samples": samples, "schemas": len(cases), "open_deviations": devs, "exhaustive": false, "recursion_graphs_exhaustive_up_to_nodes": 3}
+	return c.Finish("model_checking", cov, []string{"Gen_Inject!Violated is the reading of the rule list in the property; struct edges through arrays and maps are treated as unspecified (the property says 'necessarily contains itself')"}), nil
+}
+
+func init() { Registry["C13"] = runC13 }
